@@ -89,7 +89,11 @@ func vfGoroutines() []vfG {
 func vfIsParkedState(state string) bool {
 	switch state {
 	case "chan receive", "chan send", "select", "sync.Mutex.Lock", "sync.RWMutex.RLock", "sync.RWMutex.Lock",
-		"sync.Cond.Wait", "sync.WaitGroup.Wait", "semacquire", "chan receive (nil chan)", "chan send (nil chan)", "select (no cases)":
+		"sync.Cond.Wait", "sync.WaitGroup.Wait", "chan receive (nil chan)", "chan send (nil chan)", "select (no cases)":
+		// NOT "semacquire": that is how a goroutine waits for runtime-internal
+		// semaphores (e.g. to start a GC cycle from inside an allocation while
+		// our own goroutine dump holds the world semaphore); it is woken by the
+		// runtime, not by another goroutine, so it is not a stable parked state.
 		return true
 	}
 	return false
